@@ -145,9 +145,18 @@ def program(rng, depth, maxlen=3, family='core', payload='i'):
     return d
 
 
-def programs(seed, count, depths=(3, 4, 5, 6), maxlen=3, family='core', payload='i'):
+def programs(seed, count, depths=(3, 4, 5, 6), maxlen=3, family='core', payload='i', top=None):
     rng = random.Random(seed)
     out = []
     for i in range(count):
-        out.append(program(rng, depths[i % len(depths)], maxlen, family, payload))
+        p = program(rng, depths[i % len(depths)], maxlen, 'core' if family == 'sortgroup' else family,
+                    payload)
+        if top == 'sortgroup':       # a sort / groupby on top of a random pipeline
+            if rng.random() < 0.7:
+                p = {'op': 'sort', 'key': rng.choice(['none', 'id', 'neg', 'mod2', 'const']),
+                     'rev': rng.random() < 0.5, 'in': p}
+            else:
+                p = {'op': 'group', 'g': rng.choice(['mod2', 'const', 'id']),
+                     'sel': rng.choice([0, 1, 2, 3, 7]), 'in': p}
+        out.append(p)
     return out
